@@ -10,7 +10,8 @@ import random
 
 CLS_WORDS = ['Train', 'TrainData', 'TrainX', 'Data', 'DataX', 'Model', 'Eval', 'Feat', 'FeatTask', 'Raw', 'RawX', 'Split',
              'Norm', 'N', 'NX', 'Agg', 'AggTask', 'Report', 'Rep', 'Load', 'LoadAll', 'A', 'AB', 'Ab']
-GROUPS = [None, None, 'g', 'xg', 'g:h', 'h', 'gx']
+# (the last groups are also task names: a task may be called like the group, or the namespace, of one of its inputs)
+GROUPS = [None, None, 'g', 'xg', 'g:h', 'h', 'gx', 'data', 'load:rep']
 NS_WORDS = ['n', 'xn', 'nx', 'm', 'xm', 'train', 'tr', 'xtr', 'valid', 'a', 'xa', 'ab']
 # (the last ones are also names of attributes / methods of Config and dict: parameters may be called like that)
 PARAM_NAMES = ['p', 'q', 'size', 'dim', 'dim2', 'lr', 'lr2', 'alpha', 'opt', 'flag', 'names', 'cfgmap', 'name', 'namespace', 'context', 'keys', 'items', 'base_dir']
